@@ -39,7 +39,7 @@ INT_BITS = {"N": 64, "u64": 64, "u32": 32, "u8": 8, "u16": 16, "i32": 32}
 
 
 def is_int(t):
-    return t in INT_BITS
+    return isinstance(t, str) and t in INT_BITS
 
 
 # ------------------------------------------------------------------------------------------
@@ -267,7 +267,7 @@ class Emitter:
             return self.self_struct if isinstance(self.self_struct, tuple) and self.self_struct[0] != "struct" else self.self_struct
         if t in ("CReg", "VReg", "SingleOp", "BitsIter"):
             return ("struct", t)
-        if t == "MultiOp":
+        if t in ("MultiOp", "Op") and self.tr.generic_op_is_multi or t == "MultiOp":
             return MULTIOP
         m = re.fullmatch(r"(?:Vec|VecDeque)<(.*)>", t)
         if m:
@@ -425,6 +425,8 @@ class Emitter:
         ie = unparen(e[2])
         if ie[0] == "range":
             lo, hi = ie[1], ie[2]
+            if lo is None and hi is None:
+                return b, bt
             v = b
             if hi is not None:
                 h, th = self.ex(hi, env, "N")
@@ -574,6 +576,11 @@ class Emitter:
                     self.fail("zip with iter_mut")
                 return dict(it, list=f"List.zip {atom(it['list'])} {atom(it2['list'])}", elem=("tup", [it["elem"], it2["elem"]]))
             self.fail(f"iterator adaptor .{name}")
+        if e[0] == "call" and unparen(e[1])[0] == "path" and unparen(e[1])[1][-2:] == ["BitsIter", "from"] and len(e[2]) == 1:
+            if ("BitsIter", "next") not in self.tr.sigs:
+                self.fail("BitsIter::next is not translated")
+            m, tm = self.ex(e[2][0], env, "N")
+            return dict(list=f"bitsList {atom(m)}", elem="N", mut=None, enum=False)
         if e[0] == "range":
             if e[1] is None or e[2] is None:
                 self.fail("unbounded range as an iterator")
@@ -627,10 +634,20 @@ class Emitter:
         body = c[2]
         if body[0] != "block":
             body = ("block", [], body)
-        v, t = self.block_value(body, env2, None)
+        self.propagate += 1
+        try:
+            v, t = self.stmts(body[1], body[2], dict(env2), lambda env3, v: v, None)
+        finally:
+            self.propagate -= 1
         mon = bool(self.pending)
         if mon:
-            v = self.flush(f"some {atom(v)}")
+            # the body can panic: translate again with the binds flushed inside the lambda, result in Option
+            self.pending = []
+            keep, self.propagate = self.propagate, 0
+            try:
+                v, _ = self.stmts(body[1], body[2], dict(env2), lambda env3, v: (f"some {atom(v[0])}", v[1]), None)
+            finally:
+                self.propagate = keep
         self.pending = saved
         return f"fun {' '.join(names)} => " + wrap(lets, v), t, mon
 
@@ -693,6 +710,28 @@ class Emitter:
                 if mon or not (isinstance(tf, tuple) and tf[0] == "opt"):
                     self.fail("and_then closure")
                 return f"Option.bind {atom(v)} {atom(f)}", tf
+        if name == "into" and not args:
+            if t == ("struct", "Atom"):
+                sg = self.tr.sigs.get(("SingleOp", "from"))
+                if sg is None:
+                    self.fail("From<Op> for SingleOp is not translated")
+                if want == MULTIOP:
+                    inner = self.apply_sig(sg, [(v, t)], env)
+                    return self.apply_sig(self.tr.sigs[("MultiOp", "from")], [inner], env)
+                return self.apply_sig(sg, [(v, t)], env)
+            if t == ("struct", "SingleOp") and (want == MULTIOP or want is None):
+                return self.apply_sig(self.tr.sigs[("MultiOp", "from")], [(v, t)], env)
+            if isinstance(t, tuple) and t[0] == "vec":
+                return v, t
+        if t == ("struct", "Atom"):
+            if name == "this" and not args:
+                return v, t
+            if name == "acts_on" and not args:
+                return f"Atom.actsOn {atom(v)}", "N"
+        if t == MULTIOP:
+            sig = self.tr.method("MultiOp", name)
+            if sig is not None and not sig.muts:
+                return self.apply_sig(sig, [(v, t)] + [self.ex(a, env, pt) for a, (pn, pt) in zip(args, sig.params[1:])], env)
         if isinstance(t, tuple) and t[0] == "struct":
             if name == "clone" and not args:
                 return v, t
@@ -728,6 +767,8 @@ class Emitter:
         if e[0] == "mcall":
             if e[2] in ("iter", "iter_mut", "into_iter", "enumerate", "rev", "map", "filter", "filter_map", "zip", "flat_map"):
                 return True
+        if e[0] == "call" and unparen(e[1])[0] == "path" and unparen(e[1])[1][-2:] == ["BitsIter", "from"]:
+            return True
         return False
 
     def sink(self, e, env, want):
@@ -779,15 +820,28 @@ class Emitter:
         if last == "Some" and len(args) == 1:
             v, t = self.ex(args[0], env, want[1] if isinstance(want, tuple) and want[0] == "opt" else None)
             return f"some {atom(v)}", ("opt", t)
-        if segs == ["Self"] and len(args) == 1 and self.self_struct == MULTIOP:
+        if (segs == ["Self"] and self.self_struct == MULTIOP or segs == ["MultiOp"]) and len(args) == 1:
             return self.ex(args[0], env, MULTIOP)
+        if segs[-2:] == ["MultiOp", "default"] and not args:
+            return "([] : List (SingleOp R))", MULTIOP
+        if last == "with_capacity" and segs[-2] in ("Vec", "VecDeque") and len(args) == 1:
+            t = want if (isinstance(want, tuple) and want[0] == "vec") else ("vec", self.tr.default_elem)
+            return f"([] : {lean_ty(t)})", t
+        if last == "new" and segs[-2] in ("Vec", "VecDeque") and not args:
+            t = want if (isinstance(want, tuple) and want[0] == "vec") else ("vec", self.tr.default_elem)
+            return f"([] : {lean_ty(t)})", t
+        if segs[-2:] == ["mem", "take"] and len(args) == 1:
+            return self.ex(args[0], env, want)
         if last in ("unreachable_unchecked", "unreachable") :
             self.fail("unreachable in expression position")
         if len(segs) == 1 and segs[0] in env and isinstance(env[segs[0]][1], tuple) and env[segs[0]][1][0] == "fn":
             v, t = env[segs[0]]
             a = [self.ex(x, env, pt)[0] for x, pt in zip(args, t[1])]
             return f"{v} {' '.join(atom(x) for x in a)}", t[2]
-        sig = self.tr.function(segs, self.self_struct)
+        if len(segs) >= 3 and segs[-2] == "Op" and last == "new":
+            sig = self.tr.sigs.get((segs[-3], "new"))
+        else:
+            sig = self.tr.function(segs, self.self_struct)
         if sig is not None:
             if sig.muts:
                 self.fail(f"call of {'::'.join(segs)} with &mut parameters in expression position")
@@ -843,8 +897,25 @@ class Emitter:
                 self.fail(f"branches of different type {ta} / {tb}")
         return f"(if {c} then {a} else {b})", ta
 
+    def match_to_if(self, e):
+        """`match n { 0 => A, 1 => B, _ => C }` on an integer as an if / else-if chain"""
+        arms = e[2]
+        if not arms or arms[-1][0][0] != "pwild" or any(a[1] is not None for a in arms):
+            return None
+        if not all(a[0][0] == "plit" for a in arms[:-1]):
+            return None
+        def blk(x):
+            return x if x[0] == "block" else ("block", [], x)
+        out = blk(arms[-1][2])
+        for pat, g, body in reversed(arms[:-1]):
+            out = ("if", ("bin", "==", e[1], pat[1]), blk(body), out)
+        return out
+
     def match_expr(self, e, env, want):
         scrut = unparen(e[1])
+        chain = self.match_to_if(e)
+        if chain is not None:
+            return self.if_expr(chain, env, want)
         # match self.th { Single => A, Multi(n) => global_install(n, || B) }
         if self.is_threading_match(e):
             return self.ex(self.threading_arm(e), env, want)
@@ -875,8 +946,18 @@ class Emitter:
 
     # ---------------- blocks as values (no control-flow escape)
     def block_value(self, b, env, want):
+        """a block used as a value; hoisted binds propagate to the enclosing statement"""
         env = dict(env)
-        res = self.stmts(b[1], b[2], env, lambda env2, v: v, want)
+        n0 = len(self.pending)
+        self.propagate += 1
+        try:
+            res = self.stmts(b[1], b[2], env, lambda env2, v: v, want)
+        finally:
+            self.propagate -= 1
+        if len(self.pending) > n0 and b[1]:
+            self.fail("panicking expression inside a block with its own bindings")
+        if res is None:
+            self.fail("block without a value")
         return res
 
     # ---------------- statements in continuation-passing style
@@ -890,8 +971,12 @@ class Emitter:
                 return self.control(t, env, k, want, is_tail=True)
             if t[0] == "if" and t[2][2] is None:
                 return self.control(t, env, lambda env2, v: k(env2, None), want, is_tail=False)
+            if t[0] == "if" and t[3] is not None and (t[2][1] or (t[3][0] == "block" and t[3][1]) or t[3][0] == "if"):
+                return self.control(t, env, k, want, is_tail=True, dup=True)
             if t[0] == "match" and self.is_threading_match(t):
                 return self.stmts([], self.threading_arm(t), env, k, want)
+            if t[0] == "match" and self.match_to_if(t) is not None:
+                return self.stmts([], self.match_to_if(t), env, k, want)
             if t[0] == "return":
                 return self.do_return(t, env)
             if t[0] in ("block", "unsafe"):
@@ -985,8 +1070,12 @@ class Emitter:
             return self.hoist(self.subst(e, node, ("path", [tmp])), env4, then)
         return self.call_mut(sig, node[1], node[3], env, None, bind)
 
+    propagate = 0
+
     def with_pending(self, mk):
         """evaluate mk() (which yields the rest) under the binds hoisted so far"""
+        if self.propagate:
+            return mk()
         pend = self.pending
         self.pending = []
         v, t = mk()
@@ -1034,6 +1123,8 @@ class Emitter:
     def do_return(self, e, env):
         if e[1] is None:
             return self.with_pending(lambda: self.on_return(env, None))
+        if self.is_effect_expr(unparen(e[1]), env):
+            return self.stmts([("expr", e[1]), ("expr", ("return", None))], None, env, lambda env2, v: self.fail("unreachable"), None)
         def fin(e2, env2):
             val = self.ex(e2, env2, self.ret_ty)
             return self.with_pending(lambda: self.on_return(env2, val))
@@ -1124,6 +1215,8 @@ class Emitter:
             return r, p + [("f", place[2])]
         if place[0] == "index":
             r, p = self.place_path(place[1], env)
+            if unparen(place[2]) == ("range", None, None):
+                return r, p
             return r, p + [("i", place[2])]
         self.fail("assignment target")
 
@@ -1169,9 +1262,25 @@ class Emitter:
     def effect(self, e, env, cont):
         if e[0] == "mcall":
             recv, name, args = unparen(e[1]), e[2], e[3]
-            if name == "for_each":
+            if name == "for_each" and self.is_iter_expr(recv):
                 return self.for_each(recv, args, env, cont)
             rv, rt = None, None
+            saved = list(self.pending)
+            try:
+                rv0, rt0 = self.ex(recv, dict(env))
+            except Unsupported:
+                rv0, rt0 = None, None
+            self.pending = saved
+            if rt0 == ("struct", "Atom") and name == "for_each" and len(args) == 3:
+                # AtomicOp::for_each(&self, psi_i, psi_o, ctrl): the element-wise sweep of dispatch.rs
+                pi, ti = self.ex(args[0], env); po, to = self.ex(args[1], env); c, tc = self.ex(args[2], env, "N")
+                if ti != ("vec", "C") or to != ("vec", "C") or not is_int(tc):
+                    self.fail("AtomicOp::for_each arguments")
+                return self.set_place(args[1], f"atomForEach {atom(rv0)} {atom(pi)} {atom(po)} {atom(c)}", env, cont)
+            if (isinstance(rt0, tuple) and rt0[0] == "struct") or rt0 == MULTIOP:
+                sig0 = self.tr.method("MultiOp" if rt0 == MULTIOP else rt0[1], name)
+                if sig0 is not None and sig0.muts and "self" not in sig0.muts:
+                    return self.call_mut(sig0, recv, args, env, cont, None)
             try:
                 root, path = self.place_path(recv, env)
             except Unsupported:
@@ -1181,6 +1290,10 @@ class Emitter:
                 rv, rt = self.ex(recv, env)
                 # Vec / VecDeque mutators
                 if isinstance(rt, tuple) and rt[0] == "vec":
+                    if name == "set_len" and len(args) == 1:
+                        # uninitialised memory: modelled as zeros (every element is written before it is read)
+                        n, tn = self.ex(args[0], env, "N")
+                        return self.set_place(recv, f"Rs.resize {atom(rv)} {atom(n)} {zero_of(rt[1])}", env, cont)
                     if name == "resize" and len(args) == 2:
                         n, tn = self.ex(args[0], env, "N"); x, tx = self.ex(args[1], env, rt[1])
                         return self.set_place(recv, f"Rs.resize {atom(rv)} {atom(n)} {atom(x)}", env, cont)
@@ -1194,7 +1307,7 @@ class Emitter:
                             self.fail("append of a different type")
                         # `a.append(&mut b)` empties b
                         def after(env2):
-                            return self.set_place(other, "[]", env2, cont)
+                            return self.set_place(other, f"([] : {lean_ty(rt)})", env2, cont)
                         return self.set_place(recv, f"{atom(rv)} ++ {atom(x)}", env, after)
                     if name == "extend" and len(args) == 1:
                         it = self.iter_of(args[0], env)
@@ -1256,11 +1369,12 @@ class Emitter:
         self.fail("place update")
 
     def call_mut(self, sig, recv, args, env, cont, bind_ret):
-        """statement `recv.method(args)` where the method takes &mut self (and possibly other &mut)"""
-        rv, rt = self.ex(recv, env)
-        argv = [(rv, rt)]
-        mut_places = [recv]
-        for a, (pn, pt) in zip(args, sig.params[1:]):
+        """statement `recv.method(args)` / `f(args)` where some parameters are &mut (self and / or others)"""
+        argv, mut_places = [], []
+        all_args = ([recv] if recv is not None else []) + list(args)
+        if len(all_args) != len(sig.params):
+            self.fail(f"call of {sig.lean} with {len(all_args)} arguments")
+        for a, (pn, pt) in zip(all_args, sig.params):
             argv.append(self.ex(a, env, pt))
             if pn in sig.muts:
                 mut_places.append(a)
@@ -1274,7 +1388,6 @@ class Emitter:
         def rest():
             env2 = dict(env)
             idx = 0
-            lets = []
             retv = None
             if sig.ret != "unit":
                 retv = (names[0], sig.ret); idx = 1
@@ -1288,7 +1401,7 @@ class Emitter:
             self.monadic = True
             def mk():
                 v, t = rest()
-                return f"Option.bind ({call}) (fun {pat if len(names) == 1 else '(' + ', '.join(names) + ')'} => {v})", t
+                return f"Option.bind ({call}) (fun {pat} => {v})", t
             return self.with_pending(mk)
         return self.with_pending(lambda: self.wrap_lets([f"let {pat} := {call}"], rest()))
 
@@ -1369,6 +1482,15 @@ class Emitter:
                             out.append(r)
                     except Unsupported:
                         pass
+                for sg in self.tr.sigs_named(e[2]):
+                    for a, (pn, pt) in zip(e[3], sg.params[1:]):
+                        if pn in sg.muts:
+                            try:
+                                r, p = self.place_path(a, {**env, **{l: (l, None) for l in local}})
+                                if r not in local and r not in out:
+                                    out.append(r)
+                            except Unsupported:
+                                pass
                 for a, isref in [(a, unparen(a)[0] == "refmut") for a in e[3]]:
                     if isref:
                         try:
@@ -1478,7 +1600,7 @@ class Emitter:
             env[r] = (ln, t)
 
     # ---- if / if let / match as statements (possibly with control-flow escapes)
-    def control(self, e, env, k, want, is_tail):
+    def control(self, e, env, k, want, is_tail, dup=False):
         if e[0] == "if":
             c, tc = self.ex(e[1], env)
             if tc != "bool":
@@ -1486,7 +1608,7 @@ class Emitter:
             then, els = e[2], e[3]
             if els is not None and els[0] in ("if", "iflet"):
                 els = ("block", [("expr", els)] if not is_tail else [], els if is_tail else None)
-            if not self.escapes(e):
+            if not self.escapes(e) and not dup:
                 # merge by the tuple of assigned variables
                 roots = self.assigned_roots(then, env)
                 if els is not None:
@@ -1686,6 +1808,8 @@ class Translator:
         self.twins = []             # (lean name, ok)
         self.out = []
         self.fuels = {}
+        self.default_elem = "C"
+        self.generic_op_is_multi = False
 
     def inst_binder(self):
         return ""
@@ -1695,6 +1819,9 @@ class Translator:
 
     def method(self, struct, name):
         return self.sigs.get((struct, name))
+
+    def sigs_named(self, name):
+        return [s for (st, n), s in self.sigs.items() if n == name]
 
     def function(self, segs, self_struct):
         last = segs[-1]
@@ -1712,7 +1839,7 @@ class Translator:
         if sig.muts:
             self.mut_method_names.add(rust)
 
-    def translate_fn(self, toks, file, rust, lean, struct=None, impl=None, fuel=None, nth=0, ret_override=None, doc=None):
+    def translate_fn(self, toks, file, rust, lean, struct=None, impl=None, fuel=None, nth=0, ret_override=None, doc=None, param_types=None):
         self.cur_lean = lean
         if fuel:
             self.fuels[lean] = fuel
@@ -1734,7 +1861,7 @@ class Translator:
                     raise Unsupported(f"{where}: pattern parameter")
                 if ty is None:
                     raise Unsupported(f"{where}: parameter {nm} without a type")
-                t = em.ty_of_text(ty)
+                t = (param_types or {}).get(nm) or em.ty_of_text(ty)
                 ps.append((nm, t)); env[nm] = (lname(nm), t)
                 if ty.replace(" ", "").startswith("&mut"):
                     muts.append(nm)
@@ -1763,7 +1890,7 @@ class Translator:
                     comps.append(v[0])
                 for m in muts:
                     comps.append(env2[m][0])
-                val = comps[0] if len(comps) == 1 else "(" + ", ".join(comps) + ")"
+                val = atom(comps[0]) if len(comps) == 1 else "(" + ", ".join(comps) + ")"
                 return ("RET:" + val), None
             em.on_return = finish
             v, _ = em.stmts(body[1], body[2], env, finish, em.ret_ty)
@@ -1779,7 +1906,8 @@ class Translator:
                 v = v.replace("RET:", "")
                 rtxt = res_lean
                 aux = em.aux
-            binder = "".join(f" ({lname(n)} : {lean_ty(t)})" for n, t in ps)
+            binder = " (fuel : Nat)" if self.fuels.get(lean) == "fuel" else ""
+            binder += "".join(f" ({lname(n)} : {lean_ty(t)})" for n, t in ps)
             binder += "".join(f" ({n} : {lean_ty(t)})" for n, t in em.inputs)
             d = doc or f"`{file}`: `{rust}`"
             for a in aux:
@@ -1791,6 +1919,8 @@ class Translator:
                 self.twins.append((lean, ok))
             return sig
         except (Unsupported, IndexError, KeyError, TypeError, AttributeError) as ex:
+            if os.environ.get("RS2LEAN_DEBUG") and not isinstance(ex, Unsupported):
+                import traceback; traceback.print_exc()
             msg = str(ex) if isinstance(ex, Unsupported) else f"{where}: internal: {ex!r}"
             if not msg.startswith(where) and not msg.startswith(file):
                 msg = f"{where}: {msg}"
@@ -1818,7 +1948,27 @@ open Qvnt Qvnt.Gen
 variable {R : Type} [Add R] [Sub R] [Mul R] [Div R] [Neg R] [Zero R] [One R] [Consts R]
   [LE R] [DecidableLE R] [LT R] [DecidableLT R] [HasSqrt R] [RegConsts R]
 
+/-- `AtomicOp::for_each(&self, psi_i, psi_o, ctrl)`: `psi_o.iter_mut().enumerate().for_each(|(idx, psi)| *psi = E)`
+(that shape is checked by rs2lean.py) with `E` the translated closure body `Gen.forEach` -/
+def atomForEach (f : Atom R) (psi_i psi_o : List (Cx R)) (ctrl : Nat) : List (Cx R) :=
+  Rs.mapIdx psi_o (fun idx _ => Gen.forEach f.op (fun i => psi_i.getD i 0) ctrl idx)
+
 '''
+
+
+BITS_GLUE = """/-- `Iterator::collect` and the adaptors over `BitsIter`: the items `next` yields until `None`
+(fuel bounds the total number of loop iterations; the same shape as the model's `BitsIter.collect`) -/
+def bitsCollect : Nat → BitsIterG → Option (List Nat)
+  | 0, _ => none
+  | fuel + 1, it =>
+    match bits_next (fuel + 1) it with
+    | none => none
+    | some (none, _) => some []
+    | some (some p, it') => (bitsCollect fuel it').map (p :: ·)
+
+/-- the items of `BitsIter::from(m)` -/
+def bitsList (m : Nat) : List Nat := (bitsCollect bitsFuel (bits_from m)).getD []
+"""
 
 
 def load(file):
@@ -1882,27 +2032,72 @@ def find_const(toks, name):
 def main():
     tr = Translator()
     out = [HEADER]
-    try:
-        q = load("register/quant.rs")
-        tr.consts["MIN_BUFFER_LEN"] = find_const(q, "MIN_BUFFER_LEN")
-    except (OSError, Unsupported) as ex:
-        tr.problems.append(f"quant.rs: {ex}")
-        q = []
     T = tr.translate_fn
-    # classical register: constructors come from rs2lean.py (Generated/Kernels.lean)
-    for rust, lean, ps, ret in [("with_state", "Gen.creg_with_state", [("q_num", "N"), ("state", "N")], ("struct", "CReg")),
-                                ("get", "Gen.creg_get", [("self", ("struct", "CReg"))], "N")]:
-        tr.register("CReg", rust, Sig(lean, ps, ret, []))
-    try:
-        c = load("register/class.rs")
-        T(c, "register/class.rs", "new", "creg_new", struct="CReg")
-    except (OSError, Unsupported) as ex:
-        tr.problems.append(f"class.rs: {ex}")
-    if q:
+    S = lambda lean, ps, ret, muts=(): Sig(lean, ps, ret, list(muts))
+    ATOM, SINGLE, CREG = ("struct", "Atom"), ("struct", "SingleOp"), ("struct", "CReg")
+
+    def group(file, body):
+        try:
+            body(load(file))
+        except (OSError, Unsupported) as ex:
+            tr.problems.append(f"{os.path.basename(file)}: {file}: {ex}")
+
+    # ---- math/bits_iter.rs
+    def bits(t):
+        emit_struct(tr, t, "math/bits_iter.rs", "BitsIter", "BitsIter", "BitsIterG")
+        T(t, "math/bits_iter.rs", "from", "bits_from", struct="BitsIter")
+        if T(t, "math/bits_iter.rs", "next", "bits_next", struct="BitsIter", fuel="fuel") is not None:
+            tr.out.append(BITS_GLUE)
+    group("math/bits_iter.rs", bits)
+
+    # ---- operator/single/mod.rs, operator/multi/mod.rs
+    tr.register("Atom", "dgr", S("Atom.dgr", [("self", ATOM)], ATOM))
+    def single(t):
+        T(t, "operator/single/mod.rs", "from", "single_from", struct="SingleOp", impl=r"impl < Op : AtomicOp > From < Op > for SingleOp", param_types={"op": ATOM})
+        for rust in ["act_on", "dgr", "c", "apply"]:
+            T(t, "operator/single/mod.rs", rust, "single_" + rust, struct="SingleOp", impl=r"impl Applicable for SingleOp")
+    group("operator/single/mod.rs", single)
+    # `From<SingleOp> for MultiOp` compares the printed name with "Id": taken from the model (MultiOp.ofSingle)
+    tr.register("MultiOp", "from", S("MultiOp.ofSingle", [("single", SINGLE)], MULTIOP))
+    def multi(t):
+        for rust in ["act_on", "dgr", "c", "apply"]:
+            T(t, "operator/multi/mod.rs", rust, "multi_" + rust, struct="MultiOp", impl=r"impl Applicable for MultiOp")
+        T(t, "operator/multi/mod.rs", "mul_assign", "multi_mul_assign", struct="MultiOp", impl=r"impl MulAssign for MultiOp")
+    group("operator/multi/mod.rs", multi)
+
+    # ---- operator/multi/h.rs (atom constructors come from rs2lean.py)
+    tr.register("h1", "new", S("Gen.h1_new", [("a_mask", "N")], ATOM))
+    tr.register("h2", "new", S("Gen.h2_new", [("a_mask", "N"), ("b_mask", "N")], ATOM))
+    def hfile(t):
+        T(t, "operator/multi/h.rs", "h1", "h_h1")
+        T(t, "operator/multi/h.rs", "h2", "h_h2")
+        T(t, "operator/multi/h.rs", "h", "h_h", fuel="(W + 2)")
+    group("operator/multi/h.rs", hfile)
+
+    # ---- register/class.rs: the straight-line functions come from rs2lean.py (Generated/Kernels.lean)
+    tr.register("CReg", "with_state", S("Gen.creg_with_state", [("q_num", "N"), ("state", "N")], CREG))
+    tr.register("CReg", "get", S("Gen.creg_get", [("self", CREG)], "N"))
+    tr.register("CReg", "tensor_prod", S("Gen.creg_tensor_prod", [("self", CREG), ("other", CREG)], CREG))
+    def creg(t):
+        T(t, "register/class.rs", "new", "creg_new", struct="CReg")
+        T(t, "register/class.rs", "get_by_mask", "creg_get_by_mask", struct="CReg")
+        T(t, "register/class.rs", "mul", "creg_mul", struct="CReg", impl=r"impl Mul for Reg")
+        T(t, "register/class.rs", "mul_assign", "creg_mul_assign", struct="CReg", impl=r"impl MulAssign for Reg")
+    group("register/class.rs", creg)
+
+    # ---- register/quant.rs
+    tr.register("operator", "x", S("Op.x", [("a_mask", "N")], MULTIOP))
+    def quant(q):
+        tr.consts["MIN_BUFFER_LEN"] = find_const(q, "MIN_BUFFER_LEN")
         emit_struct(tr, q, "register/quant.rs", "Reg", "QReg", "QRegG", " (R : Type)")
         for rust in ["new", "with_state", "reset", "set_num", "get_absolute", "get_probabilities", "collapse_mask",
                      "rescale", "normalize", "measure_mask", "measure", "tensor_prod"]:
             T(q, "register/quant.rs", rust, "quant_" + rust, struct="QReg", impl=r"impl Reg")
+        tr.generic_op_is_multi = True
+        T(q, "register/quant.rs", "apply", "quant_apply", struct="QReg", impl=r"impl Reg")
+        tr.generic_op_is_multi = False
+        T(q, "register/quant.rs", "reset_by_mask", "quant_reset_by_mask", struct="QReg", impl=r"impl Reg")
+    group("register/quant.rs", quant)
     # twins table
     text = "\n".join(out + tr.out)
     text += "\n/-- every `match` on the threading model whose parallel arm is the sequential arm with rayon adaptors -/\n"
